@@ -36,7 +36,7 @@ theorem actsOK_mem {l : List Action} (h : ActsOK P good l) : ∀ a ∈ l, Ensure
 /-- the certificate of a valid cert-threshold event, for a payload of the same round stored under the event's value -/
 theorem ensureOK_of {e : Thresh} {pay : Payload} (he : ThreshValid P good e) (hk : e.kind = 2)
     (hv : pay.value = e.proposal) (hr : pay.round = e.round) : EnsureOK P good (.ensure pay e.cert) := by
-  obtain ⟨_, h2, h3, h4⟩ := he (by rw [hk]; decide)
+  obtain ⟨_, h2, h3, h4⟩ := he.1 (by rw [hk]; decide)
   have hs := h3 hk
   refine ⟨hs, hr.symm, ?_, ?_⟩
   · show e.bundle.proposal = pay.value
@@ -388,7 +388,7 @@ theorem handlePayload_spec {fuel : Nat} {σ σ' : State} {verified : Bool} {bad 
       refine ⟨h4, (actsOK_append P good _ _).mpr ⟨hacts, ?_, ha4⟩⟩
       obtain ⟨hv1, hv2, hv3⟩ := pmPayload_late P hpm hlate
       have hround : p.round = fr.round := by
-        obtain ⟨hr, _⟩ := hfr (by rw [hk2]; decide)
+        obtain ⟨hr, _⟩ := hfr.1 (by rw [hk2]; decide)
         rw [hr, hpl]; exact hp hv1 hv2 hv3
       exact ensureOK_of P good (threshValid_of_ok P good hfr) hk2 hval.symm hround
     · simp only [Except.ok.injEq] at h
